@@ -61,7 +61,7 @@ def build_and_run_replay(run, q, case, rdir):
         o = os.path.join(rdir, 'u%d.o' % i)
         own = ['-D' + d for d in u.split('|', 1)[1].split(',')] if '|' in u else []
         cc(['clang'] + common + own + ['-D%s=%s' % kv for kv in defs.items()] + ['-c', path, '-o', o])
-        if q.remove_bodies and (u.startswith('repo:') or u.startswith('work:')):
+        if q.remove_bodies and (u.startswith('repo:') or u.startswith('work:') or u.startswith('kit:kitfull.c')):
             # the kit model (strong symbol) replaces the real body, as goto-instrument did for CBMC
             cc(['objcopy'] + ['--weaken-symbol=%s' % f for f in q.remove_bodies] + [o])
         objs.append(o)
